@@ -16,7 +16,7 @@ MANIFEST = dict(
          "the lock is held for at most retry x (timeout + 100 ms + pause) (holder_time_bounded, potential-function invariant) and a free lock with parked callers is handed "
          "over before time passes. Tie = trace validation: real GeckoAsyncUdpProtocol.get with seeded concurrent callers of mixed retry/timeout on the virtual-time loop, "
          "scripted replies (prompt / late / never / wrong verb); every observed call, lock hand-off, poll, send, pause end and return must be enabled in the model and "
-         "agree with its send log and results. Gating is checked on the real GeckoAsyncSpa entry points. Session 4: an arrival-order monitor (no later caller is transmitted while an earlier caller has not completed). The lock shape of get() is a theorem over its regenerated suspension skeleton (get_lock_shape: every transmission while the caller holds the lock, the lock taken once per call, for every trace). Also the multi-segment request (GeckoAsyncStructure.get): every attempt consumes retry budget in both gets (every_attempt_consumes_budget over the regenerated skeletons) and the partial-loss pattern (a middle segment lost every time, the final one arriving) is driven on the real code. The answering-pings gate is searched with the real ping loop against a spa that stops answering, after silences of 150 s to two days (a week in the thorough tier), on a virtual clock that also drives time.time and datetime.now. A query whose replies are all lost while the spa keeps sending unsolicited partial updates (the connection`s consumers running); request_clock_is_the_handlers_own. Session 5: unwrapper_overwrites_its_fields_for_every_datagram (every normal end of GeckoPacketProtocolHandler.handle assigns addressing and content: nothing of the previous datagram survives; everyNormalEndDid_sound), and stray traffic on the real consumers: after an answered query the spa goes quiet for that verb while malformed framings, packets for another client or from another host and garbage arrive - the query reports failure after exactly its retry count; then the spa falls silent under the same strays and the answering-pings gate closes.",
+         "agree with its send log and results. Gating is checked on the real GeckoAsyncSpa entry points. Session 4: an arrival-order monitor (no later caller is transmitted while an earlier caller has not completed). The lock shape of get() is a theorem over its regenerated suspension skeleton (get_lock_shape: every transmission while the caller holds the lock, the lock taken once per call, for every trace). Also the multi-segment request (GeckoAsyncStructure.get): every attempt consumes retry budget in both gets (every_attempt_consumes_budget over the regenerated skeletons) and the partial-loss pattern (a middle segment lost every time, the final one arriving) is driven on the real code. The answering-pings gate is searched with the real ping loop against a spa that stops answering, after silences of 150 s to two days (a week in the thorough tier), on a virtual clock that also drives time.time and datetime.now. A query whose replies are all lost while the spa keeps sending unsolicited partial updates (the connection`s consumers running); request_clock_is_the_handlers_own. Session 5: unwrapper_overwrites_its_fields_for_every_datagram (every normal end of GeckoPacketProtocolHandler.handle assigns addressing and content: nothing of the previous datagram survives; everyNormalEndDid_sound), and stray traffic on the real consumers: after an answered query the spa goes quiet for that verb while malformed framings, packets for another client or from another host and garbage arrive - the query reports failure after exactly its retry count; then the spa falls silent under the same strays and the answering-pings gate closes. The silence scenario also runs with the WALL clock stepped back an hour when the spa falls silent (vloop.WALL_SHIFT moves time.time / datetime.now without the monotonic clock).",
     note="partial: time bounds hold under the fairness hypothesis (no event-loop stall), with one polling interval of slack per attempt; asyncio.Lock FIFO hand-off and "
          "'no pre-emption between awaits' are assumed (exercised by the traces). Known finding D12: the connected/ping gates are evaluated once at call entry, so a call "
          "parked on the lock can transmit after pings have gone stale.",
@@ -383,6 +383,13 @@ def search_gate(ctx):
 
 
 def search_gate_silence(ctx):
+    _search_gate_silence(ctx, 0.0)
+    # the same with the WALL clock stepped back an hour just as the spa falls silent (an NTP correction, the user setting the date):
+    # how long the spa has been silent is a matter of elapsed time, whatever the calendar says
+    _search_gate_silence(ctx, -3600.0)
+
+
+def _search_gate_silence(ctx, wall_step):
     """the answering-pings gate over LONG silences, with nothing written into the spa object: the real ping loop runs against a spa
     that answers for a while and then goes silent; the command / query entry points are tried at offsets from seconds to a week
     (a whole number of days plus a little included) and must not transmit anything"""
@@ -400,6 +407,7 @@ def search_gate_silence(ctx):
         out["answered_before_silence"] = spa.is_responding_to_pings
         answering[0] = False
         t_silent = loop.time()
+        vloop.WALL_SHIFT[0] = wall_step
         verbs = _GATED_VERBS
         for off in offsets:
             await asyncio.sleep(max(0.0, t_silent + off - loop.time()))
@@ -415,7 +423,11 @@ def search_gate_silence(ctx):
                 sent = [d for _, d in [(x[0], x[1]) for x in ft.sent[n0:]] if any(v in d for v in verbs)]
                 out[f"silent:{off}:{name}"] = len(sent)
         ping.cancel()
-    vloop.run_virtual(body)
+    try:
+        vloop.run_virtual(body)
+    finally:
+        vloop.WALL_SHIFT[0] = 0.0
+    tag = "" if not wall_step else f":wall-clock-stepped-{int(wall_step)}s"
     if out.get("answered_before_silence") is not True:
         ctx.violation("gate-silence:never-answering", {"scenario": "pings answered for 200 s"}, "is_responding_to_pings while pings are answered",
                       out.get("answered_before_silence"))
@@ -425,9 +437,9 @@ def search_gate_silence(ctx):
         ctx.count("evaluations")
         if v != 0:
             _, off, name = k.split(":")
-            ctx.violation(f"gate-silence:{name}", {"kind": "gate-silence", "silent_for_s": float(off), "entry": name},
+            ctx.violation(f"gate-silence:{name}{tag}", {"kind": "gate-silence", "silent_for_s": float(off), "entry": name, "wall_step_s": wall_step},
                           "no command or query datagram while the spa has not answered a ping for that long", v)
-    ctx.cov["gate_silence_checks"] = {k: v for k, v in out.items() if k.startswith("silent:")}
+    ctx.cov["gate_silence_checks" + tag] = {k: v for k, v in out.items() if k.startswith("silent:")}
 
 
 def search_chatter(ctx):
